@@ -279,25 +279,29 @@ def rule_stochastic(ck):
         return
     n, c, b, exp = got
     arr = canon(exp["arrival"])
-    a0 = ROW.format(0)
-    deps = [canon(x) for x in _deep(exp["departure"])]
-    ok = True
-    for dp in deps:
-        # departure = clock(arrival + duration)
-        cand = [dp.replace(f"({a0} + {ROW.format(1)})", a0), dp.replace(f"({a0} + max_len)", a0), dp.replace(f"{a0} + {ROW.format(1)}", a0)]
-        ok = ok and arr in cand
-    ck.require(ok, "C15.R3", f, b["departure"], ok="arrival and departure use the same hours->periods conversion of arrival and arrival + duration",
-               bad=f"departure is not the same conversion of (arrival + duration) as arrival is of arrival: {arr} vs {deps}", sink="same-clock")
+    a0, d0 = ROW.format(0), ROW.format(1)
+    # the stay that enters the departure, decided per case of `max_len` (gated expansion specialised under `max_len is None` / `is not None`):
+    # without a cap it is the sampled duration, with a cap min(duration, max_len) - however the cap is written (guarded store, min())
+    from ..rules import gexpand, specialise
+    gdep = gexpand(fl, b["departure"], n)
+    dep_on = canon(specialise(gdep, {"max_len is not None": True, "max_len is None": False}))
+    dep_off = canon(specialise(gdep, {"max_len is not None": False, "max_len is None": True}))
+    capped = (f"min({d0}, max_len)", f"min(max_len, {d0})", f"np.minimum({d0}, max_len)", f"np.minimum(max_len, {d0})")
+
+    def strip_stay(dp, stays):
+        out = []
+        for st_ in stays:
+            out += [dp.replace(f"({a0} + {st_})", a0), dp.replace(f"{a0} + {st_}", a0)]
+        return out
+    if "__gamma__" in dep_on or "__gamma__" in dep_off or "__phi__" in dep_on or "__phi__" in dep_off:
+        raise AnalysisError(f"_convert_ev_matrix: the stay entering the departure is not decided by `max_len is None` alone: {dep_on[:120]}")
+    ck.require(arr in strip_stay(dep_off, (d0,)) and arr in strip_stay(dep_on, capped + (d0,)), "C15.R3", f, b["departure"],
+               ok="arrival and departure use the same hours->periods conversion of arrival and arrival + stay",
+               bad=f"departure is not the same conversion of (arrival + stay) as arrival is of arrival: {arr} vs {dep_on} / {dep_off}", sink="same-clock")
     # R5 duration cap
-    caps = [(nn, how) for nn in fl.cfg.nodes for nm, how in fl._defs.get(nn, {}).items() if how[0] == "assign" and canon(how[1]) == "max_len"]
-    ck.require(len(caps) == 1, "C15.R5", f, "duration = max_len", ok="stay capped at max_len", bad="the max_len cap on the duration is missing", sink="maxlen-cap-exists")
-    for nn, how in caps:
-        nm = [k for k, h in fl._defs[nn].items() if h is how][0]
-        fs = [cmp_norm(a, t) for a, t in facts_at(fl, nn)]
-        cond = any(c_ and canon(c_[0]) == "max_len" and c_[1] == "<" and canon(c_[2]) == nm for c_ in fs) and any(c_ and canon(c_[0]) == "max_len" and c_[1] == "is not" for c_ in fs)
-        isdur = ROW.format(1) in {canon(x) for x in _alts(fl.expand(ast.Name(id=nm, ctx=ast.Load()), nn))}
-        ck.require(cond and isdur, "C15.R5", f, nn.stmt, ok="duration := max_len exactly when it exceeds max_len", bad="the cap must replace the *duration* by max_len exactly when duration > max_len",
-                   sink="maxlen-cap-edge")
+    ck.require(any(c_ in dep_on for c_ in capped), "C15.R5", f, b["departure"], ok="stay capped at max_len when max_len is given",
+               bad=f"with max_len given the stay entering the departure is `{dep_on[:100]}`: it must be min(duration, max_len)", sink="maxlen-cap-exists")
+    ck.require("max_len" not in dep_off, "C15.R5", f, b["departure"], ok="no cap without max_len", bad="max_len enters the departure although it is None", sink="maxlen-cap-edge")
     en = exp["requested_energy"]
     mins = [a for a in _alts(en) if isinstance(a, ast.Call) and call_name(a) in MIN_NAMES]
     ok = len(mins) == 1 and len(_alts(en)) == 2 and {"max_battery_power"} <= set(sig(mins[0])) and ROW.format(1) in canon(mins[0])
